@@ -152,6 +152,7 @@ pub struct CrashStats {
     pub hangs_wal_temp: usize,
     pub inflight_visible: usize,
     pub second_level: usize,
+    pub continued: usize,
 }
 
 fn wal_temp_present(dir: &Path) -> bool {
@@ -266,20 +267,34 @@ fn reopen(
 ) -> Result<(Dump, usize), (String, String)> {
     // a failure with a panic on stderr is the outcome; a silent timeout is tried once more on a
     // freshly made copy (the machine may be busy), with nothing else changed
-    let r = reopen_once(dir, opts, spec, snap, false);
+    let r = reopen_once(dir, opts, spec, snap, false, None);
     match (r, remake) {
         (Err((sig, _)), Some(mk)) if sig.contains("no_panic_reported") => {
             mk();
             std::thread::sleep(Duration::from_millis(500));
-            reopen_once(dir, opts, spec, snap, false)
+            reopen_once(dir, opts, spec, snap, false, None)
         }
         (other, _) => other,
     }
 }
 
 /// after a successful recovery: is the database usable? (one more flush, content unchanged)
-fn flush_probe(dir: &Path, opts: &[Sx], spec: &BTreeMap<String, Vec<String>>) -> Result<(Dump, usize), (String, String)> {
-    reopen_once(dir, opts, spec, None, true)
+fn flush_probe(
+    dir: &Path,
+    opts: &[Sx],
+    spec: &BTreeMap<String, Vec<String>>,
+    ingest_first: Option<&Sx>,
+) -> Result<(Dump, usize), (String, String)> {
+    reopen_once(dir, opts, spec, None, true, ingest_first)
+}
+
+/// the request the continuation probe sends to the recovered database: 40 more rows for the first
+/// table (enough to make the next flush merge that table's partitions, so that the catalogue file
+/// it writes is shorter than the one a crash may have left behind as a temp file)
+fn continuation_batch(spec: &BTreeMap<String, Vec<String>>) -> Option<Sx> {
+    let t = spec.keys().next()?;
+    let ids: Vec<Sx> = (0..40).map(|i| lst(vec![a("i"), Sx::int(1_000_000 + i)])).collect();
+    Some(lst(vec![lst(vec![name_sx(t), Sx::int(40), lst(vec![lst(vec![name_sx("id"), lst(ids)])])])]))
 }
 
 fn reopen_once(
@@ -288,6 +303,7 @@ fn reopen_once(
     spec: &BTreeMap<String, Vec<String>>,
     snap: Option<&Path>,
     then_flush: bool,
+    ingest_first: Option<&Sx>,
 ) -> Result<(Dump, usize), (String, String)> {
     let mut p = DbProc::spawn(dir);
     let mut cmd = vec![a("open")];
@@ -311,6 +327,20 @@ fn reopen_once(
         }
         Reply::Hang => return Err(fail(&p, "hang")),
         Reply::Died => return Err(fail(&p, "died")),
+    }
+    if let Some(b) = ingest_first {
+        match p.request_quick_hang(&lst(vec![a("ingest"), b.clone()]), Duration::from_secs(40), Duration::from_millis(1200)) {
+            Reply::Ok(s) if s.tag() == "ok" => {}
+            Reply::Ok(s) => {
+                let pm = p.first_panic().unwrap_or_else(|| if s.items().len() > 1 { sx_name(&s.items()[1]) } else { "?".into() });
+                return Err((format!("panic:ingest-after-recovery:{}", lvsig(&pm)), format!("the first ingestion after the recovery panicked: {}", pm)));
+            }
+            Reply::Hang => {
+                let pm = p.first_panic().unwrap_or_else(|| "no panic reported".into());
+                return Err((format!("hang:ingest-after-recovery:{}", lvsig(&pm)), format!("the first ingestion after the recovery never returns ({})", pm)));
+            }
+            Reply::Died => return Err(fail(&p, "died")),
+        }
     }
     if then_flush {
         match p.request_quick_hang(&lst(vec![a("flush")]), Duration::from_secs(40), Duration::from_millis(1200)) {
@@ -535,8 +565,7 @@ pub fn run_crash(input: &Sx) -> Vec<Outcome> {
         .collect();
     let mut trace: Vec<Sx> = vec![];
     let mut variant_no = 0usize;
-    let mut probed_temp = false;
-    let mut probed_other = false;
+    let mut probed = [false; 4];
     for cut in selected {
         let mut variants: Vec<(String, Option<u64>)> = vec![("whole".into(), None)];
         if cut.effect == "write" && cut.path.starts_with("wal/") {
@@ -655,23 +684,61 @@ pub fn run_crash(input: &Sx) -> Vec<Outcome> {
                             }
                         }
                     }
-                    // is the recovered database usable: one flush, same content
-                    let complete_temp = has_wal_temp;
-                    if (complete_temp && !probed_temp) || (!has_wal_temp && !probed_other && cut.op_kind == "flush") {
-                        if complete_temp {
-                            probed_temp = true;
-                        } else {
-                            probed_other = true;
+                    // is the recovered database usable: one more request, one flush (which merges the
+                    // first table's partitions: its catalogue file is shorter than a leftover temp file
+                    // of the interrupted one), then a clean restart - once per workload for each kind of
+                    // leftover (log temp file, catalogue temp file, partition temp file, none)
+                    let files = list_tree(&v);
+                    let kind = if has_wal_temp {
+                        0usize
+                    } else if files.iter().any(|f| f.starts_with("meta..")) {
+                        1
+                    } else if files.iter().any(|f| f.starts_with("tables/") && f.contains("..INCOMPLETE")) {
+                        2
+                    } else if cut.op_kind == "flush" {
+                        3
+                    } else {
+                        4
+                    };
+                    if kind < 4 && !probed[kind] {
+                        probed[kind] = true;
+                        let cont = continuation_batch(&spec);
+                        let mut allowed2: Vec<Logical> = cut.allowed.clone();
+                        if let Some(b) = &cont {
+                            for l in allowed2.iter_mut() {
+                                l.apply(b.items());
+                            }
                         }
-                        match flush_probe(&v, &opts, &spec) {
+                        let tag = ["wal-temp", "meta-temp", "part-temp", "flush-cut"][kind];
+                        // the options may change between lifetimes: factor 0 makes the flush merge every
+                        // table into one partition
+                        let opts0: Vec<Sx> = opts
+                            .iter()
+                            .map(|o| if o.tag() == "combine" { lst(vec![a("combine"), Sx::int(0)]) } else { o.clone() })
+                            .collect();
+                        match flush_probe(&v, &opts0, &spec, cont.as_ref()) {
                             Err((sig, msg)) => violation(
-                                format!("{}{}", sig, if has_wal_temp { ":wal-temp" } else { "" }),
+                                format!("{}:{}", sig, tag),
                                 format!("cut after {} of {} ({}): {}", cut.effect, cut.path, vname, msg),
                                 &mut outs,
                             ),
                             Ok((dd, _)) => {
-                                if !cut.allowed.iter().any(|l| l.differs(&dd, &spec).is_none()) {
-                                    violation("flush-after-recovery:content".into(), "a flush after the recovery changes the content".into(), &mut outs);
+                                stats.continued += 1;
+                                if !allowed2.iter().any(|l| l.differs(&dd, &spec).is_none()) {
+                                    violation(format!("flush-after-recovery:content:{}", tag), "a request and a flush after the recovery: content is not the recovered content plus the request".into(), &mut outs);
+                                } else {
+                                    match reopen_once(&v, &opts, &spec, None, false, None) {
+                                        Err((sig, msg)) => violation(
+                                            format!("restart-after-recovery:{}:{}", sig, tag),
+                                            format!("cut after {} of {} ({}): recovered, one request, one flush, clean restart: {}", cut.effect, cut.path, vname, msg),
+                                            &mut outs,
+                                        ),
+                                        Ok((d3, _)) => {
+                                            if !allowed2.iter().any(|l| l.differs(&d3, &spec).is_none()) {
+                                                violation(format!("restart-after-recovery:content:{}", tag), "recovered, one request, one flush, clean restart: content differs".into(), &mut outs);
+                                            }
+                                        }
+                                    }
                                 }
                             }
                         }
@@ -716,6 +783,7 @@ pub fn run_crash(input: &Sx) -> Vec<Outcome> {
                 lst(vec![a("opened"), Sx::int(stats.opened)]),
                 lst(vec![a("inflight-visible"), Sx::int(stats.inflight_visible)]),
                 lst(vec![a("second-level"), Sx::int(stats.second_level)]),
+                lst(vec![a("continued"), Sx::int(stats.continued)]),
                 lst(vec![a("trace"), lst(trace)]),
             ])),
             oracle: None,
